@@ -100,7 +100,10 @@ HintOf(e, run, pc, pf) ==
                 THEN SelOf(e, run, pc) ELSE {}]
 
 \* C20: every call returns normally
-NoPanic(run) == run.res.st \in {"ok", "err"}
+\* ... and without damage outside the database: "harm" is set by the harness when memory the
+\* caller owns was changed behind its back (a document passed to Insert reads differently afterwards;
+\* strings returned by an earlier call no longer read the same)
+NoPanic(run) == run.res.st \in {"ok", "err"} /\ ~HasField(run.res, "harm")
 
 \* the error class / success is one the specification admits in the pre-state
 \* a store may refuse a transaction as a whole (badger: larger than its size limit); the call then
